@@ -278,6 +278,36 @@ def h_exceptions(eng):
             eng.prove({k: v for k, v in vars(got).items()} == fields, f"{name}:fields:p{proto}")
 
 
+def h_measurement_roundtrip(eng):
+    """Measurement objects (float registry, real uncertainties package): copy, deepcopy and
+    pickle keep value, error and units and re-attach to the application registry"""
+    import math
+
+    src = regs.float_default()
+    app = pint.UnitRegistry()
+    old = pint.get_application_registry().get()
+    pint.set_application_registry(app)
+    try:
+        for v, e, unit in ((4.0, 0.25, "second ** 2"), (-1234.5, 2.5, "kilometer / hour"), (2.5e-7, 5e-9, "newton"), (0.0, 4e-05, "meter")):
+            m = src.Measurement(v, e, unit)
+            hows = [("copy", copy.copy), ("deepcopy", copy.deepcopy)] + [(f"pickle:{p}", (lambda p: lambda o: pickle.loads(pickle.dumps(o, p)))(p)) for p in range(0, pickle.HIGHEST_PROTOCOL + 1)]
+            for how, fn in hows:
+                try:
+                    m2 = fn(m)
+                except Exception as ex:  # noqa: BLE001
+                    eng.fail(f"measurement:{how}:raises", detail=f"{type(ex).__name__}: {ex}", stop=False)
+                    continue
+                home = app if how.startswith("pickle") else src
+                eng.prove(type(m2).__name__ == "Measurement", f"measurement:{how}:type")
+                eng.prove(math.isclose(m2.value.magnitude, v, rel_tol=0, abs_tol=0) and math.isclose(m2.error.magnitude, e, rel_tol=0, abs_tol=0), f"measurement:{how}:value-and-error")
+                eng.prove(dict(m2._units) == dict(m._units), f"measurement:{how}:units")
+                eng.prove(m2._REGISTRY is home, f"measurement:{how}:registry")
+                eng.prove(m2 is not m, f"measurement:{how}:new-object")
+            eng.prove(m.value.magnitude == v and m.error.magnitude == e, "measurement:original-untouched")
+    finally:
+        pint.set_application_registry(old)
+
+
 MIN_DISCHARGED = {"H18.a": 1500, "H18.b": 30, "H18.c": 8}
 
 
@@ -298,4 +328,5 @@ def cases(tier, seed):
     out.append(Case("H18.c", "deepcopy-registry", M, "h_deepcopy_registry", {}, opts={"hash_mode": "mixed"}, validate=1, weight=10.0))
     out.append(Case("H18.d", "lazy-registry", M, "h_lazy", {}, validate=0, weight=30.0))
     out.append(Case("H18.e", "exceptions", M, "h_exceptions", {}, kind="conc"))
+    out.append(Case("H18.e", "measurement", M, "h_measurement_roundtrip", {}, kind="conc"))
     return out
